@@ -163,8 +163,39 @@ def args_for(shape, i):
     return {'none': ((), {}), 'p1': ((v,), {}), 'p2': ((v, w), {}), 'n1': ((), {'a': v}), 'n2': ((), {'a': v, 'b': w})}[shape]
 
 
+E2E_CLIENTS = ('requests', 'httpx', 'httpx-async', 'aiohttp')
+E2E_SERVERS = ('flask', 'werkzeug', 'aiohttp')
+
+
+def is_async_client(ckind):
+    return ckind in ('async', 'httpx-async', 'aiohttp')
+
+
+def build_e2e(pair, served, idgen, strict, hier=False):
+    """a real backend client -> (in-process HTTP) -> a real web-framework integration -> its dispatcher"""
+    from mc.harness.backends import make_backend_client
+    from mc.harness.http import Integration
+    ckind, skind = pair
+    integ = Integration(skind, '/api')
+    served.register(integ.dispatcher, skind == 'aiohttp')
+    sent = []
+
+    def handler(req):
+        sent.append((req['body'].decode('utf-8'), None, dict(method=req['method'], content_type=req['headers'].get('content-type'))))
+        reply = integ.post(req['body'], req['headers'].get('content-type'))
+        if reply.raised:
+            raise HarnessError('the %s integration raised %s' % (skind, reply.raised))
+        headers = [] if reply.raw_content_type is None else [('Content-Type', reply.raw_content_type)]
+        return reply.status, headers, reply.body
+    client = make_backend_client(ckind, handler, id_gen_impl=IDGENS[idgen](), strict=strict, **({'error_cls': Hier07} if hier else {}))
+    client.sent = sent
+    return client
+
+
 def build_system(pair, served, idgen, strict, hier=False):
     ckind, dkind = pair
+    if ckind in E2E_CLIENTS:
+        return build_e2e(pair, served, idgen, strict, hier)
     disp = pjrpc.server.AsyncDispatcher() if dkind == 'async' else pjrpc.server.Dispatcher()
     served.register(disp, dkind == 'async')
 
@@ -192,7 +223,7 @@ def build_system(pair, served, idgen, strict, hier=False):
 def drive(ckind, thunk):
     try:
         r = thunk()
-        if ckind == 'async' and hasattr(r, '__await__'):
+        if is_async_client(ckind) and hasattr(r, '__await__'):
             loop = VLoop()
             try:
                 r = loop.run(r)
@@ -483,6 +514,24 @@ def gen_cases(ctx):
                             if idgen not in ('sequential', 'sequential0', 'randint12') and vi > 1:
                                 continue
                             yield dict(part='single', pair=pair, idgen=idgen, strict=strict, method=method, shape=shape, vi=vi)
+    # end to end: the real backend clients through the real web-framework integrations (in-process HTTP)
+    e2e_pairs = [(c, s) for c in E2E_CLIENTS for s in E2E_SERVERS]
+    for pair in e2e_pairs:
+        for idgen in ('sequential', 'sequential0'):
+            for strict in (True, False):
+                for method in ('echo', 'terr', 'ferr', 'herr', 'uerr', 'lerr', 'boom', '_echo', '__x'):
+                    for shape in ARGSHAPES:
+                        for vi in (range(len(VALS)) if shape != 'none' else [0]):
+                            if (idgen != 'sequential' or not strict) and vi > 1:
+                                continue
+                            yield dict(part='single', pair=pair, idgen=idgen, strict=strict, method=method, shape=shape, vi=vi)
+    for n in range(1, ctx.pick(2, 3) + 1):
+        for kinds in itertools.product((True, False), repeat=n):
+            for ms in itertools.product(['echo', 'ferr', 'boom'], repeat=n):
+                elems = [(ms[i], kinds[i], ARGSHAPES[(i + 1) % 5]) for i in range(n)]
+                for pair in e2e_pairs:
+                    for idgen in ('sequential', 'sequential0'):
+                        yield dict(part='batch', pair=pair, idgen=idgen, strict=True, elems=elems, off=0)
     L = ctx.pick(4, 4)
     behs = ['echo', 'ferr', 'boom'] if ctx.quick else ['echo', 'terr', 'ferr', 'uerr', 'boom']
     for n in range(1, L + 1):
